@@ -25,7 +25,7 @@ Theorem C04_band_is_gu : forall y nd llas z lopt,
   ws2doptv OpsR y nd llas = VFit z lopt -> ws2dgu OpsR y lopt nd = Curve z.
 Proof.
   intros y nd llas z lopt H. apply (optv_band_is_gu y nd llas z lopt H).
-  unfold ws2doptv in H. destruct (fltb OpsR _ _); [|discriminate].
+  unfold ws2doptv, optv_core in H. destruct (fltb OpsR _ _); [|discriminate].
   destruct (lopt_of OpsR llas _ _) as [lo|] eqn:E; [|discriminate]. injection H as _ <-. exact (lopt_nonzero _ _ _ _ E).
 Qed.
 Print Assumptions C04_band_is_gu.
